@@ -1,6 +1,22 @@
 #!/usr/bin/env python3
 """Mutation trial for C03/C04: apply one small realistic bug at a time to a scratch copy of the
-c-ares tree and run the quick tiers (scaled) against it."""
+c-ares tree (/tmp/codec-src, removed afterwards) and run the quick tiers at --scale 0.1 against it
+through VERIF_SRC.  Usage: python3 harness/codec/mutants.py [M1 M5 ...]
+
+Outcome on 2026-09-27 (seed 1, scale 0.1; every mutant flagged, keys abridged):
+  M1  SRV weight/port swapped, parser+writer     C04 diff:field:srv:weight          C03 rt:ref-dump-differs:srv:weight
+  M2  TTL top bit dropped in parser              C04 diff:field:<type>:ttl (23 keys) C03 rt:dump-differs:<type>:ttl
+  M3  OPT ext-rcode shift wrong, parser+writer   C04 diff:field:header:rcode        C03 rt:ref-dump-differs:header:rcode, opt:version
+  M4  EDNS option value one octet short (parser) C04 diff:field:opt:options[].value C03 rt:dump-differs:opt:options[].value
+  M5  '>=' -> '>' in the pointer rule            C04/C03 abort:assert:case_finished_within_its_.._budget_(hang) (per-case watchdog)
+  M6  RDLENGTH back-patch off by one (writer)    C04 diff:escape:text-to-wire       C03 rt:parse-fails, rt:dump-differs:* (26 keys)
+  M7  CAA flags/tag swapped, parser+writer       C04 diff:field:caa:flags, diff:reject-wellformed:*  C03 rt:ref-dump-differs:caa:*
+  M8  '.' in a label not escaped                 C04 diff:escape:wire-to-text, diff:field:*:name     C03 rt:dump-differs:*
+  M9  TCP length prefix counts itself            C04 -                              C03 rt:tcpbuf:nocomp:length-prefix
+  M10 MX preference byte-swapped, parser+writer  C04 diff:field:mx:preference       C03 rt:ref-dump-differs:mx:preference
+  M11 ares_buf_set_length ignores consumed prefix C04 -                             C03 rt:tcpbuf:nocomp:*, asan:negative-size-param
+  M12 SOA serial/refresh swapped (parser only)   C04 diff:field:soa:serial          C03 rt:dump-differs:soa:serial
+M9 and M11 touch only the TCP writer, which C04 does not exercise."""
 import os, shutil, subprocess, sys, re, time
 SRC = "/tmp/codec-src"
 P = SRC + "/src/lib/record/ares_dns_parse.c"
